@@ -324,6 +324,8 @@ where
         }
         let record = Record::create(key, timestamp.into(), value, meta)
             .with_context(|| "storage write with record creation failed")?;
+        // Requests to the observer are sent after the lock on `safe` is released: the channel is bounded,
+        // and the worker needs the write lock to process them
         let safe = self.inner.safe.read().await;
         let blob = safe
             .active_blob
@@ -342,14 +344,18 @@ where
                 Err(e.into())
             }
         })?;
-        self.try_update_active_blob(blob).await?;
+        let need_update = self.should_update_active_blob(blob).await?;
+        drop(safe);
+        if need_update {
+            self.observer.try_update_active_blob().await;
+        }
         if self.inner.should_try_fsync(result.dirty_bytes) {
             self.observer.try_fsync_data().await;
         }
         Ok(())
     }
 
-    async fn try_update_active_blob(&self, active_blob: &Box<ASRwLock<Blob<K>>>) -> Result<()> {
+    async fn should_update_active_blob(&self, active_blob: &Box<ASRwLock<Blob<K>>>) -> Result<bool> {
         let config_max_size = self
             .inner
             .config
@@ -371,10 +377,10 @@ where
                 Err(d) => d,
             };
             if dur.as_millis() > self.inner.config.debounce_interval_ms() as u128 {
-                self.observer.try_update_active_blob().await;
+                return Ok(true);
             }
         }
-        Ok(())
+        Ok(false)
     }
 
     /// Reads the first found data matching given key.
@@ -1030,39 +1036,46 @@ where
     }
 
     async fn delete_with_optional_meta(&self, key: impl AsRef<K>, timestamp: BlobRecordTimestamp, meta: Option<Meta>, only_if_presented: bool) -> Result<u64> {
-        {
-            // Try read lock first
-            let safe = self.inner.safe.read().await;
-            if only_if_presented || safe.active_blob.is_some() {
-                return self.delete_core(&safe, key.as_ref(), timestamp, meta, only_if_presented).await;
+        // Requests to the observer are sent after the lock on `safe` is released: the channel is bounded,
+        // and the worker needs the write lock to process them
+        let (deleted, defer_dump, try_fsync) = 'locked: {
+            {
+                // Try read lock first
+                let safe = self.inner.safe.read().await;
+                if only_if_presented || safe.active_blob.is_some() {
+                    break 'locked self.delete_core(&safe, key.as_ref(), timestamp, meta, only_if_presented).await?;
+                }
             }
-        }
 
-        // Active blob should be initialized => use write lock
-        let mut safe = self.inner.safe.write().await;
-        if !only_if_presented {
-            self.inner.ensure_active_blob_exists(&mut safe).await?;
+            // Active blob should be initialized => use write lock
+            let mut safe = self.inner.safe.write().await;
+            if !only_if_presented {
+                self.inner.ensure_active_blob_exists(&mut safe).await?;
+            }
+            self.delete_core(&mut safe, key.as_ref(), timestamp, meta, only_if_presented).await?
+        };
+        if defer_dump {
+            self.observer.defer_dump_old_blob_indexes().await;
         }
-        return self.delete_core(&mut safe, key.as_ref(), timestamp, meta, only_if_presented).await;
+        if try_fsync {
+            self.observer.try_fsync_data().await;
+        }
+        Ok(deleted)
     }
 
-    /// Core deletion logic, when lock on `Safe<K>` is acquired
-    async fn delete_core(&self, safe: &Safe<K>, key: &K, timestamp: BlobRecordTimestamp, meta: Option<Meta>, only_if_presented: bool) -> Result<u64> {
+    /// Core deletion logic, when lock on `Safe<K>` is acquired.
+    /// Returns count of deleted records and which requests should be sent to the observer (deferred index dump, fsync)
+    async fn delete_core(&self, safe: &Safe<K>, key: &K, timestamp: BlobRecordTimestamp, meta: Option<Meta>, only_if_presented: bool) -> Result<(u64, bool, bool)> {
         let deleted_in_active_result = Self::delete_in_active(safe, key, timestamp, meta.clone(), only_if_presented).await?;
         let deleted_in_active = deleted_in_active_result.as_ref().map(|r| if r.deleted { 1 } else { 0 }).unwrap_or(0);
         let deleted_in_closed = Self::delete_in_closed(safe, key, timestamp, meta).await?;
 
-        if deleted_in_closed > 0 {
-            self.observer.defer_dump_old_blob_indexes().await;
-        }
-        if let Some(result) = deleted_in_active_result {
-            if self.inner.should_try_fsync(result.dirty_bytes) {
-                self.observer.try_fsync_data().await;
-            }
-        }
+        let defer_dump = deleted_in_closed > 0;
+        let try_fsync = deleted_in_active_result
+            .map_or(false, |result| self.inner.should_try_fsync(result.dirty_bytes));
 
         debug!("{} deleted total", deleted_in_active + deleted_in_closed);
-        Ok(deleted_in_active + deleted_in_closed)
+        Ok((deleted_in_active + deleted_in_closed, defer_dump, try_fsync))
     }
 
     async fn delete_in_closed(safe: &Safe<K>, key: &K, timestamp: BlobRecordTimestamp, meta: Option<Meta>) -> Result<u64> {
